@@ -64,7 +64,7 @@ func ProductionRefreshRate() func() {
 func RedisConfig(o ProxyOpts) *service.Config {
 	ct := o.ConnectTimeout
 	if ct == 0 {
-		ct = 500 * time.Millisecond
+		ct = 5 * time.Second // generous: a connect to a live simulated node must not time out on a busy machine
 	}
 	cfg := &service.Config{
 		Listener:       &service.Listener{Address: &common.Address{Ip: "127.0.0.1", Port: 0}, ConnectionLimit: o.ConnLimit},
